@@ -46,6 +46,15 @@ def panic_rule(ctx, chk, prop, rule_name, roots, cut=None, floor=1):
                               s.what, s.producer, fn.def_, safe[sid]["requires"]["dominating_test"], path),
                           s.file, s.line, fn.def_, {"site": sid, "allowlist_reason": safe[sid]["reason"]})
                 continue
+            msafe = None
+            if sid not in safe:
+                for me in ctx.table("safe_sites").get("module_sites", []):
+                    if fn.def_.startswith(me["module"]) and ("%s|%s" % (s.kind, s.what)) == me["kind_what"]:
+                        msafe = me
+            if msafe is not None:
+                r.instance(None, ok=True)
+                r.classify("allowlisted")
+                continue
             if sid in safe:
                 used_safe.add(sid)
                 r.instance(None, ok=True)
